@@ -528,6 +528,31 @@ func lemmaHandOverThenCreate(rt *esdtNFTCreateRoleTransfer, cr *esdtNFTCreate, o
 //@   ensures[C10] vmOutput.OutputAccounts[seq(recipient)].OutputTransfers[0].Value != nil && bigval(vmOutput.OutputAccounts[seq(recipient)].OutputTransfers[0].Value) == 0
 //@   modifies vmOutput.OutputAccounts, newmap(vmOutput.OutputAccounts), new(vmcommon.OutputAccount), new([]vmcommon.OutputTransfer), new(big.Int)
 
+// addToESDTBalance: the one place where a fungible balance changes (sender debits pass a negated value). Proved once,
+// used modularly by ESDTTransfer (both sides), the local mint / burn, ESDTBurn and the fungible branch of the multi
+// transfer's destination loop.
+//@ func addToESDTBalance
+//@   results err
+//@   view a = addr(userAcnt)
+//@   view k = seq(key)
+//@   view v = bigval(value)
+//@   view e0 = St[addr(userAcnt)][seq(key)]
+//@   requires !isNil(userAcnt) && !isNil(marshalizer) && !isNil(pauseHandler) && value != nil && WFvalues(St) && isTokKey(seq(key))
+//@   ensures onlyChanged(St, old(St), a, k)
+//@   ensures[C17] err == nil ==> failed == old(failed)
+//@   ensures (old(readFailed) ==> readFailed) && (old(loadFailed) ==> loadFailed) && (faultFree ==> readFailed == old(readFailed))
+//@   ensures[C01,C02] err == nil && !readFailed ==> val(St, a, k) == val(old(St), a, k) + v && val(St, a, k) >= 0
+//@   ensures[C01,C02,C10] err == nil && !readFailed && len(old(e0)) != 0 ==> dType(old(e0)) == 0
+//@   ensures[C04] err == nil && !readFailed && !isReturnWithError && a != ESDTSC() ==> !frozen(old(St), a, k) && !paused(old(St), k)
+//@   ensures[C15] err == nil ==> WFvalues(St)
+//@   ensures[C15] err == nil && !readFailed && len(St[a][k]) != 0 ==> dType(St[a][k]) == 0 && !dValNil(St[a][k])
+//@   ensures[C03,C04] err == nil && !readFailed && len(old(e0)) != 0 && len(St[a][k]) != 0 ==> dProps(St[a][k]) == dProps(old(e0))
+//@   ensures[C03,C04] err == nil && !readFailed && len(old(e0)) == 0 && len(St[a][k]) != 0 ==> len(dProps(St[a][k])) == 0
+//@   ensures[C15] err == nil && !readFailed ==> (len(St[a][k]) == 0) == (val(old(St), a, k) + v == 0 && (len(old(e0)) == 0 || pempty(dProps(old(e0)))))
+//@   ensures[C01,C10] err != nil && !failed && !readFailed ==> !isErr(err, ErrInvalidArguments)
+//@   ensures[C10] err != nil && !failed && !readFailed ==> (isErr(err, ErrOnlyFungibleTokensHaveBalanceTransfer) && len(old(e0)) != 0 && dType(old(e0)) != 0) || (isErr(err, ErrESDTIsFrozenForAccount) && !isReturnWithError && a != ESDTSC() && frozen(old(St), a, k)) || (isErr(err, ErrESDTTokenIsPaused) && !isReturnWithError && a != ESDTSC() && paused(old(St), k)) || (isErr(err, ErrInsufficientFunds) && val(old(St), a, k) + v < 0)
+//@   modifies St, failed, readFailed, loadFailed
+
 // ---- ESDTTransfer ---------------------------------------------------------------------------------------------------------------------
 // hasS / hasD: the sender / destination account lives on the executing shard.
 
